@@ -218,7 +218,7 @@ theorem readFull_chunks (P : Prims) (o : ReadOpts) (secret : Secret) (c : Cfg) (
     simp only [ha] at hb
     simp only [Option.isSome_some, if_true]
     rw [C10.schedule_independent_no_headers false .message (by decide) b ck chunks (by rw [hflat, hb]),
-      C10.armor_roundtrip_partial .message [] b ck (by decide) (by decide)]
+      C10.armor_roundtrip .message [] b ck (by decide) (by decide)]
     rfl
 
 /-! ### the composed statement -/
